@@ -24,6 +24,9 @@ def reasm(prop,extra_quick=(),extra_thorough=()):
     jobs.append(job("api-k3-nilpush",".","VH_Reassembler",[prop+"/"],{"k":3,"maxInFlight":1,"nilpush":1},Q,bounds="k=3 incl. PushMessage(nil); maxInFlight=1"))
     return {"jobs":jobs,"assumptions":REASM_ASSUME,"outside":REASM_OUT}
 C["C01"]=reasm("C01")
+C["C01"]["jobs"].append(job("push-text-k3",".","VH_ReassemblerPush",["C01/"],{"k":3,"maxInFlight":2},Q,bounds="k=3 records through Push(typ, raw): record type symbolic (all 65536), well-formed text, sequence in {5,6}, then Close; maxInFlight=2"))
+C["C01"]["jobs"].append(job("push-text-k4-mif1",".","VH_ReassemblerPush",["C01/"],{"k":4,"maxInFlight":1},T,bounds="k=4 through Push, maxInFlight=1"))
+C["C01"]["outside"]=[x for x in REASM_OUT if not x.startswith("Push(")]+["Push(typ, raw) with text that does not parse (C04/C05)"]
 C["C02"]=reasm("C02")
 C["C02"]["jobs"]+=[job("clock-k3-2s",".","VH_Reassembler",["C02/"],{"k":3,"maxInFlight":2,"timeout_mode":4,"forcepush":2,"plain":1},Q,clock="sym",bounds="two pushes of SYSCALL records then one free operation (SYSCALL push or Maintain) with a 2s timeout and every time.Now() reading symbolic: events may leave the buffer by expiry, order must still hold"),
    job("clock-k3-2s-anytype",".","VH_Reassembler",["C02/"],{"k":3,"maxInFlight":2,"timeout_mode":4},T,clock="sym",bounds="k=3 free operations, record types symbolic, 2s timeout, symbolic clock"),
@@ -283,7 +286,7 @@ c09=[job("file-object","aucoalesce","VH_FileObject",["C09/"],{"nsys":3,"maxpaths
      job("file-object-5sys-3paths","aucoalesce","VH_FileObject",["C09/"],{"nsys":5,"maxpaths":3},T,bounds="5 syscalls (incl. mknod, mount) + 1..3 PATH records, symbolic st_mode"),
      job("single-record","aucoalesce","VH_Conservation",["C09/"],{"shape":0,"named":1},T,bounds="one record of 6 types with every subset of a 16-key pool"),
      job("single-record-each-type","aucoalesce","VH_Conservation",["C09/"],{"shape":2},Q,bounds="one record of every type the normalisation table knows, carrying every key that type's normalisations name (subject/object/how/source_ip/has_fields) plus 7 common keys, minus at most one key; values plain tokens or IP literals"),
-     job("single-record-anytype","aucoalesce","VH_Conservation",["C09/"],{"shape":0,"named":0},T,bounds="one record of a symbolic 16-bit type with every subset of the key pool",max_paths=400000),
+     job("single-record-anytype","aucoalesce","VH_Conservation",["C09/"],{"shape":0,"named":0,"npool":6},T,bounds="one record of a symbolic 16-bit type (EOE excluded: not an event on its own) with every subset of a 6-key pool (result, addr, acct, exe, syscall, x1)",max_paths=400000),
      job("groups-2extra","aucoalesce","VH_Conservation",["C09/"],{"shape":1,"maxextra":2,"execve_extra":1},Q,bounds="SYSCALL first / other record first / no SYSCALL, plus 0..2 further records from {PATH, EXECVE, SOCKADDR, CWD/PROCTITLE/AVC/BPRM_FCAPS with optional key collision, a record whose Data() fails}, in any order"),
      job("groups-3extra","aucoalesce","VH_Conservation",["C09/"],{"shape":1,"maxextra":3,"execve_extra":1},T,bounds="as above with 0..3 further records")]
 C["C09"]={"jobs":c09,"assumptions":COAL_ASSUME+["any non-empty Warnings excuses a lost field (which wording 'names the problem' is not for the check to decide)","at most one EXECVE and one SOCKADDR record per group"],
